@@ -29,9 +29,11 @@ const NONCE_LEN_FIELD: usize = 2;
 // n bytes - encrypted DEK
 // n bytes - nonce
 // n bytes - opaque (AEAD encrypted seed + tag)
+//
+// The size of the *wrapped* DEK is up to the KMS (it need not be DEK_LEN_BYTES), so it is not
+// part of the minimum; it is checked against the blob once its length field has been read.
 const MIN_PAYLOAD_SIZE: usize = DEK_LEN_FIELD
     + NONCE_LEN_FIELD
-    + DEK_LEN_BYTES
     + NONCE_LEN_BYTES
     + SEED_LENGTH as usize
     + TAG_LEN_BYTES;
